@@ -78,6 +78,23 @@ var Witnesses = []WitnessCase{
 	{`[\x{D800}\x{D801}]abc`, []string{"xx\uFFFDabc"}},
 	{`\x{D800}abc`, []string{"xx\uFFFDabc"}},
 	{`\pL+`, []string{"abc def 123 abc def 123 "}},
+	{`\d+(.aa)x*`, []string{"1baa", "1baa      2aaa"}},
+	{`.*b?c\d+`, []string{"c1"}},
+	{`.*.?xyz.+`, []string{"xyzz"}},
+	{`(?:.|xyz){2}a`, []string{"acaxyzaa"}},
+	{`[a-z]{3}(?:abc)?c`, []string{"cbbabcc"}},
+	{`(|bc){2}c`, []string{"bcc"}},
+	{`.*c(?:\nb|cd)`, []string{"ccdc\nb"}},
+	{`^.*[α-ω]+\.txt$`, []string{"a/λ.txt"}},
+	{`^.*[©®]+x$`, []string{"éx"}},
+	{`\d\d[a-c]|b`, []string{"b"}},
+	{`(?:\d\d[a-c]|b)\W*`, []string{"b"}},
+	{`\d\d[a-c]foo`, []string{"x99cfoo"}},
+	{`x\S\Sy`, []string{"xéy"}},
+	{`a[ab]{14}c`, []string{"abababababababababababab"}},
+	{`(?:a?){60}b`, []string{"xx aab aab aab"}},
+	{`\d\w*-`, []string{"11111111111111111111"}},
+	{`(?m)^.*\d\.php`, []string{"x.php.php.php.php.php"}},
 }
 
 func witness(i uint64) Case {
